@@ -27,6 +27,8 @@ EXTENDS Integers, Sequences, FiniteSets, TLC
 CONSTANTS Configs,      \* set of task/client configurations (records, see MC_ClientLoop)
           StartTimes,   \* possible clock values when the client starts
           D1s, Svcs, D2s, \* environment: overhead before / service time / overhead after (ticks)
+          NearOffsets,  \* throttled tasks: service times of (target interval - k) ticks, k in NearOffsets, are possible too
+                        \* (a client that comes back just before / at / just after its next scheduled time)
           Weights,      \* weights a successful request may report (0 allowed)
           ErrKinds,     \* kinds of failing requests: subset of {"api", "transport", "timeout"}
           MaxErrors,    \* at most this many failing requests per run
@@ -39,7 +41,9 @@ CONSTANTS Configs,      \* set of task/client configurations (records, see MC_Cl
 (* cfg fields:  kind "iter"|"time";  wi, it (iterations);  wt, tp (ticks);  sched "unthrottled"|"deterministic"|"poisson";  *)
 (*   tnum/tden target throughput in <tunit>/s over all clients;  tunit, runit unit of the target / reported by the runner;   *)
 (*   clients (of the task);  idx, total (global client index / total clients of the parallel element);  ramp (ticks);        *)
-(*   tps ticks per second;  client (client id given to the executor);  task (name)                                           *)
+(*   tps ticks per second;  client (id of the client that executes the requests);  task (name);                              *)
+(*   rc: 0 = ordinary runner; k > 0 = the runner exposes completed/percent_completed, completed is true from its k-th call   *)
+(*   on (percent_completed stays None)                                                                                       *)
 
 Warmup == 0
 Normal == 1
@@ -66,6 +70,17 @@ RampWait(c) == (c.ramp * c.idx) \div c.total
 (* DeterministicScheduler.wait_time = 1 / (T / clients / weight), in ticks *)
 Interval(c, w) == (w * c.clients * c.tps * c.tden) \div c.tnum
 
+(* Placement of the clients of one schedule element.  e = [cap |-> clients given on the parallel element (0 = none),   *)
+(* clients |-> << clients of sub-task 1, ... >>].  The i-th client (from 0) of sub-task j is client                    *)
+(* idx = (clients of the sub-tasks before j) + i of the element; all ElementTotal(e) clients ramp up together; when    *)
+(* the element is over-committed (cap < sum) the request is executed by client idx % cap.                             *)
+RECURSIVE SumTo(_, _)
+SumTo(q, n) == IF n = 0 THEN 0 ELSE q[n] + SumTo(q, n - 1)
+ElementTotal(e) == IF e.cap > 0 THEN e.cap ELSE SumTo(e.clients, Len(e.clients))
+Placement(e, j, i) ==
+    LET idx == SumTo(e.clients, j - 1) + i
+    IN [idx |-> idx, total |-> ElementTotal(e), clients |-> e.clients[j], executes |-> idx % ElementTotal(e)]
+
 (* UnitAwareScheduler raises when the runner's unit differs from a target unit other than ops/s *)
 AbortExpected(c) == c.sched # "unthrottled" /\ c.runit # c.tunit /\ c.tunit # "ops"
 
@@ -83,8 +98,11 @@ NoReq == [n |-> 0, sched |-> 0, ty |-> 0, p |-> 0, yat |-> 0, issue |-> 0, ws |-
 
 EffWeight(c, r) == IF r.unit = c.tunit THEN r.w ELSE 1      \* a mismatching unit counts as one op (target in ops/s)
 
+(* the runner reports completion after this request *)
+RunnerDone(c, r) == c.rc > 0 /\ r.n >= c.rc
+
 Accum(c, prev, r) == [r EXCEPT !.lw = IF r.ok /\ r.w > 0 THEN EffWeight(c, r) ELSE prev.lw,
-                               !.exts = prev.exts \/ r.ext]
+                               !.exts = prev.exts \/ r.ext \/ RunnerDone(c, r)]
 
 InitState(t0) ==
     [pc |-> "init", now |-> t0, ts |-> 0,
@@ -159,7 +177,7 @@ RecordStep(c, s) ==
         svc == r.we - r.ws
         lend == IF LatencyEndsAtResponse THEN r.we ELSE r.ret
         lat == IF r.sched > 0 THEN lend - (s.ts + r.sched) ELSE svc   \* sched = 0: unthrottled, or first request of a throttled task
-        completed == r.ext                                            \* complete.is_set() (runner.completed is None)
+        completed == r.ext \/ RunnerDone(c, r)                        \* complete.is_set() or runner.completed
         prog == IF completed THEN PD(c) ELSE r.p
         smp == [client |-> c.client, task |-> c.task, ty |-> r.ty, abs |-> r.issue, rs |-> r.ws, lat |-> lat, svc |-> svc,
                 proc |-> r.ret - r.issue, tp |-> r.we - s.ts, ops |-> r.w, unit |-> r.unit, p |-> prog,
@@ -187,7 +205,9 @@ Yield  == /\ st.pc = "next" /\ ~Completed(cfg, st)
 SleepUntil == st.pc = "sleep" /\ st' = SleepStep(st) /\ act' = [name |-> "SleepUntil"]
 Issue  == st.pc = "issue" /\ st' = IssueStep(st) /\ act' = [name |-> "Issue"]
 WireStart == st.pc = "wire" /\ \E d \in D1s : st' = WireStartStep(st, d) /\ act' = [name |-> "WireStart", d |-> d]
-WireEnd == st.pc = "inflight" /\ \E d \in Svcs : st' = WireEndStep(st, d) /\ act' = [name |-> "WireEnd", d |-> d]
+SvcChoices(c) == Svcs \cup (IF c.sched = "unthrottled" THEN {}
+                            ELSE {x \in {Interval(c, 1) - k : k \in NearOffsets} : x >= 0})
+WireEnd == st.pc = "inflight" /\ \E d \in SvcChoices(cfg) : st' = WireEndStep(st, d) /\ act' = [name |-> "WireEnd", d |-> d]
 Return ==
     /\ st.pc = "returning"
     /\ \E d \in D2s, ext \in (IF st.cur.n \in ExtAt THEN BOOLEAN ELSE {FALSE}) :
